@@ -284,7 +284,7 @@ BOUNDS = {'quick': 'names: every file name of 0-12 bytes over {a . t x p} (spell
 from . import project as _project
 BOUNDS = {k: v + _project.bounds_note('C11', k) for k, v in BOUNDS.items()}
 ASSUMPTIONS = ['D9: a source whose own extension is `txtpp` twice (x.txtpp.txtpp) is outside the domain (its output is again a txtpp name)',
-               'no symlinks; read_dir lists exactly the entries of the FS model (order irrelevant: each file is a separate task)',
+               'symbolic links only in the project layouts `links` / `links-ok`; read_dir lists exactly the entries of the FS model (order irrelevant: each file is a separate task)',
                'dependencies are added by the coordinator (C02); here sources have none']
 COVERS_REQUIRED = ['txtpp_name', 'other_name', 'source_found', 'selection_ok', 'missing_target']
 
